@@ -6,10 +6,10 @@
 # /repo's HEAD under /tmp/mutlab/repo; the harness is copied to
 # /tmp/mutlab/verif with its path dependencies rewritten to that worktree.
 # "-" as patch means the unmodified tree. Build output: /tmp/mutlab/target.
-# Remove everything with: git -C /repo worktree remove --force /tmp/mutlab/repo; rm -rf /tmp/mutlab
+# MUTLAB=<dir> selects another scratch directory (one per concurrent user). Remove with: git -C /repo worktree remove --force $MUTLAB/repo; rm -rf $MUTLAB
 set -u
 PATCH="$1"; shift
-LAB=/tmp/mutlab
+LAB=${MUTLAB:-/tmp/mutlab}
 SRC="$(cd "$(dirname "${BASH_SOURCE[0]}")/.." && pwd)"
 mkdir -p "$LAB"
 if [ ! -d "$LAB/repo/.git" ] && [ ! -f "$LAB/repo/.git" ]; then
